@@ -255,3 +255,21 @@ def gen_disc(kind, rng, units=None):
 
 def gen_any(kind, rng, units=None, mix=False):
     return gen_rects(kind, rng, units, mix=mix) if rng.random() < 0.7 else gen_disc(kind, rng, units)
+
+
+def point_source_on_constrained(p, rng, prob=0.5):
+    """electrostatics / heat flow: give an end point of a fixed-value segment (boundary type 0) or of a fixed-value conductor a point
+    property with a NON-ZERO source.  The prescribed value of the segment / conductor still has to be met there (the source of a
+    constrained node does not enter its equation)."""
+    src = [i for i, pp in enumerate(p.pointprops) if pp.get("q", 0.0) != 0]
+    cands = []
+    for s in list(p.segs) + list(p.arcs):
+        fixed_b = s["bc"] >= 0 and p.bdryprops[s["bc"]]["type"] == 0
+        fixed_c = s["cond"] >= 0 and p.circprops[s["cond"]].get("type", 1) == 1
+        if fixed_b or fixed_c:
+            cands += [s["n0"], s["n1"]]
+    cands = sorted(set(n for n in cands if p.nodes[n]["bc"] < 0))
+    if src and cands and rng.random() < prob:
+        p.nodes[rng.choice(cands)]["bc"] = rng.choice(src)
+        return True
+    return False
